@@ -19,6 +19,10 @@
 //	             after a slash, the OUTCOME of the steps of the parked exchange (reqmod.1/qx):
 //	               q reqmod returns an error   k reqmod calls ctx.SkipRoundTrip()
 //	               x y z  the round trip fails (custom error / io.EOF / timeout)   r resmod returns an error
+//	               u v (reqmod, rt) the request is a large upload (u: Content-Length, v: chunked) of which only the first
+//	                 bytes have arrived when Close is called; the rest is sent after the release, in slices with pauses;
+//	                 the round tripper streams the body and checks length + SHA-256 (at rt the exchange is "parked"
+//	                 inside the round tripper's read of the body)
 //	               g (write only) the client goes away instead of reading the response
 //	    async    (token) release all parked exchanges at once instead of one after the other
 //	    R: order in which the parked exchanges are released after Close was called
@@ -40,6 +44,7 @@
 //	A<c> Accept returned   h<c> client sent half a request head (only when the connection is known to be idle)
 //	q<c> reqmod entered    t<c> round trip entered   s<c> resmod entered   e<c> resmod returning
 //	T<c>+ / T<c>-  the round trip returns a response / an error     P<c>+ / P<c>-  the head about to be written is / is not a 502
+//	T<c>! the round tripper could not read the complete, byte-identical request body (upload scenarios)
 //	F<c> a socket write of the response failed     G<c> the client went away
 //	W<c>+ / W<c>-  first socket write of a response with / without Connection: close
 //	w<c> last byte of the response written     X<c> conn.Close()
@@ -51,6 +56,7 @@ package main
 import (
 	"bufio"
 	"bytes"
+	"crypto/sha256"
 	"errors"
 	"fmt"
 	"io"
@@ -322,7 +328,8 @@ func (h *run) gate(point, addr string) *connRec {
 	}
 	h.add(fmt.Sprintf("%s%d", tok, cr.id))
 	h.nap()
-	if cr.park == point && cr.cur == cr.parkAt {
+	upload := cr.cur == cr.parkAt && strings.ContainsAny(cr.out, "uv")
+	if cr.park == point && cr.cur == cr.parkAt && !(point == "rt" && upload) {
 		cr.parked <- struct{}{}
 		<-cr.release
 	}
@@ -332,6 +339,19 @@ func (h *run) gate(point, addr string) *connRec {
 
 // outcome reports whether the exchange being handled on cr is the one whose
 // steps have scripted outcomes, and whether letter k is among them.
+const (
+	upFirst = 1000 // bytes of an upload that arrive together with the head
+	upReply = 77   // size of the origin's answer to a complete upload
+)
+
+func upBody(n int) []byte {
+	b := make([]byte, n)
+	for i := range b {
+		b[i] = byte((i*131 + i/251 + n) % 253)
+	}
+	return b
+}
+
 func (cr *connRec) outcome(k byte) bool {
 	return cr != nil && cr.cur == cr.parkAt && strings.IndexByte(cr.out, k) >= 0
 }
@@ -394,6 +414,46 @@ func (u upstream) RoundTrip(req *http.Request) (*http.Response, error) {
 			u.h.add(fmt.Sprintf("T%d-", cr.id))
 			return nil, err
 		}
+		if strings.HasPrefix(req.URL.Path, "/u/") {
+			// an origin that reads the whole upload: length and hash must be the client's
+			total, _ := strconv.Atoi(strings.TrimPrefix(req.URL.Path, "/u/"))
+			hsh := sha256.New()
+			buf := make([]byte, 8192)
+			got, signalled := 0, false
+			var rerr error
+			for {
+				k, e := req.Body.Read(buf)
+				hsh.Write(buf[:k])
+				got += k
+				if !signalled && got >= upFirst && cr.park == "rt" && cr.cur == cr.parkAt {
+					signalled = true
+					cr.parked <- struct{}{}
+				}
+				if e == io.EOF {
+					break
+				}
+				if e != nil {
+					rerr = e
+					break
+				}
+			}
+			want := sha256.Sum256(upBody(total))
+			if rerr != nil || got != total || !bytes.Equal(hsh.Sum(nil), want[:]) {
+				u.h.add(fmt.Sprintf("T%d!", cr.id))
+				if rerr == nil {
+					rerr = errors.New("upload differs")
+				}
+				return nil, rerr
+			}
+			u.h.add(fmt.Sprintf("T%d+", cr.id))
+			b := bodyFor(upReply)
+			return &http.Response{
+				Status: "200 OK", StatusCode: 200, Proto: "HTTP/1.1", ProtoMajor: 1, ProtoMinor: 1,
+				Header:        http.Header{"Content-Type": {"text/plain"}},
+				Body:          io.NopCloser(bytes.NewReader(b)),
+				ContentLength: int64(upReply), Request: req,
+			}, nil
+		}
 		u.h.add(fmt.Sprintf("T%d+", cr.id))
 	}
 	n, _ := strconv.Atoi(strings.TrimPrefix(req.URL.Path, "/b/"))
@@ -434,6 +494,60 @@ func (cl *client) send(n int) {
 	cl.sizes = append(cl.sizes, n)
 	cl.mu.Unlock()
 	fmt.Fprintf(cl.c, "GET http://h.test/b/%d HTTP/1.1\r\nHost: h.test\r\n\r\n", n)
+}
+
+// sendUpload writes the head of a POST and the first upFirst bytes of its body in one write.
+func (cl *client) sendUpload(total int, chunked bool) {
+	cl.mu.Lock()
+	cl.sizes = append(cl.sizes, upReply)
+	cl.mu.Unlock()
+	var b bytes.Buffer
+	body := upBody(total)
+	if chunked {
+		fmt.Fprintf(&b, "POST http://h.test/u/%d HTTP/1.1\r\nHost: h.test\r\nTransfer-Encoding: chunked\r\n\r\n", total)
+		fmt.Fprintf(&b, "%x\r\n", upFirst)
+		b.Write(body[:upFirst])
+		b.WriteString("\r\n")
+	} else {
+		fmt.Fprintf(&b, "POST http://h.test/u/%d HTTP/1.1\r\nHost: h.test\r\nContent-Length: %d\r\n\r\n", total, total)
+		b.Write(body[:upFirst])
+	}
+	cl.c.Write(b.Bytes())
+}
+
+// sendRemainder sends the rest of the upload in slices with pauses.
+func (cl *client) sendRemainder(total int, chunked bool) {
+	body := upBody(total)[upFirst:]
+	slices := 4
+	per := (len(body) + slices - 1) / slices
+	for len(body) > 0 {
+		time.Sleep(15 * time.Millisecond)
+		k := per
+		if k > len(body) {
+			k = len(body)
+		}
+		cl.c.SetWriteDeadline(time.Now().Add(10 * time.Second))
+		if chunked {
+			// several chunks per slice, never aligned with the slices
+			part := body[:k]
+			for len(part) > 0 {
+				c := 5000
+				if c > len(part) {
+					c = len(part)
+				}
+				if _, err := fmt.Fprintf(cl.c, "%x\r\n%s\r\n", c, part[:c]); err != nil {
+					return
+				}
+				part = part[c:]
+			}
+		} else if _, err := cl.c.Write(body[:k]); err != nil {
+			return
+		}
+		body = body[k:]
+	}
+	if chunked {
+		fmt.Fprint(cl.c, "0\r\n\r\n")
+	}
 }
 
 // setExpect overrides what the idx-th response must be (-1: 502 + Warning, n: 200 with bodyFor(n)).
@@ -613,6 +727,14 @@ type spec struct {
 	cr    *connRec
 }
 
+// upTotal: size of the upload of this connection (larger than the proxy's 4096-byte buffer; sometimes much larger)
+func (s *spec) upTotal(sz int) int {
+	if (sz+s.warm)%2 == 0 {
+		return 200000
+	}
+	return 6000
+}
+
 var points = []string{"idle", "head", "reqmod", "rt", "resmod", "write"}
 
 func parseForced(in []string) (sz int, specs []*spec, order []int, async bool, sc time.Duration) {
@@ -668,7 +790,9 @@ func parseForced(in []string) (sz int, specs []*spec, order []int, async bool, s
 			// outcomes only make sense on an exchange that is parked; a parked write needs the origin's big body
 			allowed := ""
 			switch pw[0] {
-			case "reqmod", "rt", "resmod":
+			case "reqmod", "rt":
+				allowed = "qkxyzruv"
+			case "resmod":
 				allowed = "qkxyzr"
 			case "write":
 				allowed = "qrg"
@@ -685,6 +809,14 @@ func parseForced(in []string) (sz int, specs []*spec, order []int, async bool, s
 				if pw[0] == "rt" {
 					pw[0] = "reqmod"
 				}
+			}
+			if strings.ContainsAny(string(ob), "uv") {
+				// an upload in progress: the round trip is a real one and is not scripted to fail
+				ob = []byte(strings.NewReplacer("x", "", "y", "", "z", "", "k", "").Replace(string(ob)))
+				if strings.Contains(string(ob), "u") {
+					ob = []byte(strings.Replace(string(ob), "v", "", -1))
+				}
+				pipe, coal = false, false
 			}
 			specs = append(specs, &spec{point: pw[0], warm: w, pipe: pipe && !coal && isParked(pw[0]),
 				coal: coal && isParked(pw[0]), after: after, out: string(ob)})
@@ -804,7 +936,9 @@ func runForced(in []string) (out []string) {
 			time.Sleep(2 * time.Millisecond)
 			h.add(fmt.Sprintf("h%d", s.cr.id))
 		case "reqmod", "rt", "resmod":
-			if s.coal {
+			if strings.ContainsAny(s.out, "uv") {
+				cl.sendUpload(s.upTotal(sz), strings.Contains(s.out, "v"))
+			} else if s.coal {
 				cl.sendThenHalf(sz)
 			} else if s.pipe {
 				cl.sendPipelined(sz, sz+7)
@@ -912,6 +1046,10 @@ func runForced(in []string) (out []string) {
 		s := specs[i]
 		if s.point != "write" {
 			close(s.cr.release)
+			if strings.ContainsAny(s.out, "uv") {
+				// the client carries on uploading after shutdown was requested
+				go s.cl.sendRemainder(s.upTotal(sz), strings.Contains(s.out, "v"))
+			}
 		} else if strings.Contains(s.out, "g") {
 			// the client goes away instead of reading the response
 			h.add(fmt.Sprintf("G%d", s.cr.id))
@@ -1433,6 +1571,20 @@ func main() {
 				jobs = append(jobs, job{fmt.Sprintf("f%d", n), in})
 			}
 		}
+		for _, pt := range []string{"reqmod", "rt"} {
+			for _, oc := range []string{"u", "v", "uq", "vr"} {
+				for w := 0; w <= 1; w++ {
+					in := []string{"F", fmt.Sprintf("sz:%d", pickSz(rng)), fmt.Sprintf("%s.%d/%s", pt, w, oc)}
+					if rng.Chance(1, 3) {
+						in = append(in, "sc:40")
+					}
+					cfg.Count("outcome=" + oc)
+					cfg.Count("point=" + pt)
+					n++
+					jobs = append(jobs, job{fmt.Sprintf("f%d", n), in})
+				}
+			}
+		}
 		for _, oc := range []string{"g", "q", "r", "qr", "gq"} {
 			for w := 0; w <= 1; w++ {
 				n++
@@ -1445,7 +1597,7 @@ func main() {
 		if cfg.Thorough() {
 			no = 250
 		}
-		ocs := []string{"q", "k", "x", "y", "z", "r", "qx", "yr", "kr", "xr", "qy"}
+		ocs := []string{"q", "k", "x", "y", "z", "r", "qx", "yr", "kr", "xr", "qy", "u", "v", "u", "v"}
 		for i := 0; i < no; i++ {
 			k := rng.Range(2, 3)
 			in := []string{"F", fmt.Sprintf("sz:%d", pickSz(rng))}
